@@ -1,5 +1,5 @@
 From Coq Require Import ZArith List.
-From PV Require Import Base.U64 C19.C19_Model C19.C19_Lib C19.C19_Inv C19.C19_Proofs.
+From PV Require Import Base.U64 C19.C19_Model C19.C19_Lib C19.C19_Inv C19.C19_Proofs C19.C19_Mtx C19.C19_Time.
 Theorem oc_invariant : forall now life lim progs s, reachable (init_state now life lim progs) s -> Inv s.
 Proof. exact reachable_inv. Qed.
 Print Assumptions oc_invariant.
@@ -42,3 +42,31 @@ Theorem oc_recycler_unique : forall now life lim progs s t1 t2 th1 th2 i,
   pc_recycler (t_pc th1) i = true -> pc_recycler (t_pc th2) i = true -> t1 = t2.
 Proof. exact recycler_unique. Qed.
 Print Assumptions oc_recycler_unique.
+Theorem oc_ctor_exclusive : forall now life lim progs s t1 t2 th1 th2 i1 i2 it1 it2,
+  reachable (init_state now life lim progs) s ->
+  nth_error (s_thr s) t1 = Some th1 -> nth_error (s_thr s) t2 = Some th2 ->
+  pc_in_mtx (t_pc th1) i1 = true -> pc_in_mtx (t_pc th2) i2 = true ->
+  nth_error (s_items s) i1 = Some it1 -> nth_error (s_items s) i2 = Some it2 -> i_key it1 = i_key it2 -> t1 = t2.
+Proof. exact ctor_exclusive. Qed.
+Print Assumptions oc_ctor_exclusive.
+Theorem oc_expire_only_old : forall now life lim progs s i it, (0 <= now <= MAX64)%Z ->
+  reachable (init_state now life lim progs) s -> In i (s_list s) -> nth_error (s_items s) i = Some it ->
+  i_expire it = sat_add (i_relt it) (s_lifespan s) /\ (i_relt it <= s_now s)%Z.
+Proof. exact expire_only_old. Qed.
+Print Assumptions oc_expire_only_old.
+Theorem oc_expire_predicate : forall its now lim lst set zs l' set', exp_split its now lim lst set = (zs, l', set') ->
+  forall z, In z zs -> exists it, nth_error its z = Some it /\ ((i_expire it < now)%Z \/ exists n : nat, (lim < Z.of_nat n)%Z).
+Proof. exact exp_split_pred. Qed.
+Print Assumptions oc_expire_predicate.
+Theorem oc_failure_not_poisoning : forall now life lim progs s i it, (0 <= now <= MAX64)%Z ->
+  reachable (init_state now life lim progs) s -> nth_error (s_items s) i = Some it ->
+  (0 <= i_failure it <= s_now s)%Z /\ (In i (s_list s) -> i_failure it = 0%Z).
+Proof. exact failure_not_poisoning. Qed.
+Print Assumptions oc_failure_not_poisoning.
+Theorem oc_cooldown_elapsed_constructs : forall s t th i ok y cd it,
+  nth_error (s_thr s) t = Some th -> t_pc th = PAcqCheck i ok y cd ->
+  nth_error (s_items s) i = Some it -> i_live it = true -> i_obj it = None ->
+  (i_failure it <= sat_sub (s_now s) cd)%Z ->
+  exists r th', step s t = Some r /\ nth_error (s_thr (r_st r)) t = Some th' /\ t_pc th' = PAcqCtor i ok y.
+Proof. exact cooldown_elapsed_constructs. Qed.
+Print Assumptions oc_cooldown_elapsed_constructs.
